@@ -165,6 +165,29 @@ class TUPLE(Kind):
 
 
 @dataclass(frozen=True)
+class RECORD(Kind):
+    """a dict with a fixed set of string keys, read only by constant key (e.g. the properties dict of scipy.signal.find_peaks)"""
+    fields: Tuple[Tuple[str, Kind], ...]
+
+    def __init__(self, **fields):
+        object.__setattr__(self, 'fields', tuple(fields.items()))
+
+    def cols(self):
+        out = []
+        for name, k in self.fields:
+            out += [(f'.{name}{s}', srt) for s, srt in k.cols()]
+        return out
+
+    def from_cols(self, t):
+        vals, p = {}, 0
+        for name, k in self.fields:
+            n = len(k.cols())
+            vals[name] = k.from_cols(t[p:p + n])
+            p += n
+        return VRecord(tuple(vals.items()))
+
+
+@dataclass(frozen=True)
 class LIST(Kind):
     elem: Kind
 
@@ -305,6 +328,23 @@ class VList(V):
 class VListRef(V):
     """a Python list object: identity lid, contents in State.lists[lid] (a VList)"""
     lid: int
+
+
+@dataclass(frozen=True)
+class VRecord(V):
+    items: Tuple[Tuple[str, V], ...]
+
+    @property
+    def kind(self): return RECORD(**{n: v.kind for n, v in self.items})
+
+    def cols(self):
+        out = []
+        for _, v in self.items:
+            out += v.cols()
+        return out
+
+    def get(self, name):
+        return dict(self.items).get(name)
 
 
 @dataclass(frozen=True)
